@@ -184,6 +184,37 @@ CLAIMED = {
         design='5 / C04',
         note=TB + 'Closed under the global context. descriptors_union (DESIGN) is not yet a theorem.',
         technique='Coq finite theorem + matcher soundness + mixture oracle on the implementation'),
+    'C14': dict(
+        text='PARTIAL. Machine-checked (Coq): finite theorem over the nine scheme files regenerated from /repo on every run (every pattern readable by '
+             'the Coq reader, remaps well-formed and chain-free); the data-directory cache never changes its answer once given, the override wins, '
+             'failures are not cached, builtin names resolve to the same relative path under any data directory, path-like names are taken as paths. '
+             'Exhaustive on the implementation on every run: nine libraries x three ways of locating them (fresh process each) with identical '
+             'content fingerprints, every group evaluated at range ends / midpoint / T_ref / every knot, every pattern compiled, uncertainty blocks '
+             'square, symmetric, sized to the basis, basis entries with data, and positive semi-definite (numerically).',
+        design='5 / C14',
+        note=TB + 'Closed under the global context. PSD is a numerical eigenvalue check, not the checked-certificate theorem of DESIGN; library '
+             'YAML contents are not translated into Gallina; the file system is runtime.',
+        technique='Coq finite theorems + cache state-machine proofs + exhaustive three-way load audit'),
+    'C16': dict(
+        text='Machine-checked proof (Coq), PARTIAL: for every rule, molecule and match - no edit sequence adds, removes or transmutes an atom (atoms '
+             'of every element are conserved), atoms that are not images of labelled atoms are untouched, one product graph per match. The executable '
+             'model (rule reader with doubled electron balance incl. the bond-type checks of break/modify, edit application per match) is compared '
+             'with the implementation on every run: reading class of generated balanced / unbalanced / mislabelled rule texts and the complete '
+             'product graph of every match (atom identity carried by atom-map numbers).',
+        design='5 / C16',
+        note=TB + 'Closed under the global context. Unimolecular rules with one reactant fragment; balanced_iff_electrons_conserved (DESIGN) is decided by '
+             'the correspondence, not a theorem; atom-type modification, groups, duplicates and constraints are unsupported constructs.',
+        technique='Coq conservation/frame proofs over the edit semantics + vm_compute correspondence of rule reading and product graphs'),
+    'C17': dict(
+        text='Machine-checked proof (Coq) for the work list abstract in the species, for EVERY expand function and distinct seeds: the result contains '
+             'the seeds, is closed under the rules, contains every reachable species and only reachable ones, lists nothing twice, and the loop '
+             'terminates within |U|+1 iterations whenever the reachable set is contained in a finite duplicate-free U (invariant by induction '
+             'over the iterations). Tie: an independent breadth-first closure computed by the harness gives the expand table; the Coq work list run on '
+             'it must reproduce the species multiset of GenerateRxnNet; direct oracle: seeds present, closure complete, nothing extra, no duplicates.',
+        design='5 / C17',
+        note=TB + 'Closed under the global context. Species identity = canonical SMILES of the H-explicit graph (the implementation\'s '
+             'sub-structure duplicate test is assumed to coincide on uncharged pools); unimolecular rules.',
+        technique='Coq invariant proof over the work-list iterations + vm_compute run on the harness-computed closure table'),
 }
 
 PENDING_REASON = 'check not built yet in this round (design in DESIGN.md section 5); not claimed until it runs'
